@@ -286,21 +286,19 @@ theorem addressed_follows_source (path : String) (skip : Bool) (hs : ctx.opts.sh
 def accessibleOn (st : TyId) (leaf : String) (label : String) : Bool :=
   match label with
   | "return false" => false
-  | "return true" => true
-  | "return !b.isExternalPkg(named.Obj().Pkg()) || ast.IsExported(leafName)" =>
-    !ctx.env.isExternalPkg (ctx.env.ty st).pkgPath || isExportedName leaf
+  | "return obj != nil" => ctx.env.visibleMember st leaf   -- `LookupFieldOrMethod(structType, true, <generated package>, leaf)`
   | _ => false
 
-/-- **`isStructFieldAccessible` follows the source** -/
+/-- **`isStructFieldAccessible` follows the source**: not a struct, or the blank name: no; otherwise
+what `go/types` finds from the generated package -/
 theorem accessible_follows_source (structNode : Node) (leaf : String) :
     ctx.accessible structNode leaf =
       accessibleOn ctx (ctx.env.derefPtr (structNode.exprType ctx.env)) leaf
         (Generated.Decisions.isStructFieldAccessible
-          (ctx.env.isStructType (ctx.env.derefPtr (structNode.exprType ctx.env)))
-          (ctx.env.isNamedType (ctx.env.derefPtr (structNode.exprType ctx.env)))) := by
+          (ctx.env.isStructType (ctx.env.derefPtr (structNode.exprType ctx.env))) (leaf == "_")) := by
   unfold BCtx.accessible Generated.Decisions.isStructFieldAccessible
   simp only
   cases ctx.env.isStructType (ctx.env.derefPtr (structNode.exprType ctx.env)) <;>
-    cases ctx.env.isNamedType (ctx.env.derefPtr (structNode.exprType ctx.env)) <;> simp [accessibleOn]
+    cases hl : (leaf == "_") <;> simp [accessibleOn, hl]
 
 end Convergen.Bridge.Decisions
